@@ -1,1 +1,118 @@
-// placeholder
+//! K-AVEC: the real `ArrayVec` (unsafe code in src/read/util.rs, compiled into this crate by #[path]) behaves as a
+//! bounded sequence: from ANY reachable state (every sequence of at most CAP symbolic elements) one arbitrary operation
+//! agrees with a plain-array model; CBMC's pointer checks cover the unsafe blocks. bounded(capacity 4).
+use crate::util::ArrayVec;
+
+const CAP: usize = 4;
+
+struct Model {
+    v: [u32; CAP + 1],
+    n: usize,
+}
+
+fn agree<A: crate::util::ArrayLike<Item = u32>>(a: &ArrayVec<A>, m: &Model) {
+    assert!(a.len() == m.n);
+    let mut i = 0;
+    while i < m.n {
+        assert!(a[i] == m.v[i]);
+        i += 1;
+    }
+}
+
+fn step<A: crate::util::ArrayLike<Item = u32>>(growable: bool) {
+    let mut a: ArrayVec<A> = ArrayVec::new();
+    let mut m = Model { v: [0; CAP + 1], n: 0 };
+    let n0: usize = kani::any();
+    kani::assume(n0 <= CAP);
+    let mut i = 0;
+    while i < n0 {
+        let x: u32 = kani::any();
+        assert!(a.try_push(x).is_ok());
+        m.v[i] = x;
+        i += 1;
+    }
+    m.n = n0;
+    agree(&a, &m);
+    let op: u8 = kani::any();
+    let x: u32 = kani::any();
+    let idx: usize = kani::any();
+    match op % 6 {
+        0 => {
+            let r = a.try_push(x);
+            if m.n < CAP || growable {
+                assert!(r.is_ok());
+                m.v[m.n] = x;
+                m.n += 1;
+            } else {
+                // fixed storage: CapacityFull exactly when len == capacity, contents untouched
+                assert!(r.is_err());
+            }
+        }
+        1 => {
+            kani::assume(idx <= m.n); // documented precondition (assert!)
+            let r = a.try_insert(idx, x);
+            if m.n < CAP || growable {
+                assert!(r.is_ok());
+                let mut j = m.n;
+                while j > idx {
+                    m.v[j] = m.v[j - 1];
+                    j -= 1;
+                }
+                m.v[idx] = x;
+                m.n += 1;
+            } else {
+                assert!(r.is_err());
+            }
+        }
+        2 => {
+            let r = a.pop();
+            if m.n == 0 {
+                assert!(r.is_none());
+            } else {
+                m.n -= 1;
+                assert!(r == Some(m.v[m.n]));
+            }
+        }
+        3 => {
+            kani::assume(m.n > 0 && idx < m.n); // documented precondition
+            let r = a.swap_remove(idx);
+            assert!(r == m.v[idx]);
+            m.v[idx] = m.v[m.n - 1];
+            m.n -= 1;
+        }
+        4 => {
+            a.clear();
+            m.n = 0;
+        }
+        _ => {
+            let c = a.clone();
+            assert!(c == a);
+            agree(&c, &m);
+            drop(c);
+        }
+    }
+    if m.n <= CAP {
+        agree(&a, &m);
+    } else {
+        assert!(a.len() == m.n && a[CAP] == m.v[CAP]);
+    }
+    drop(a);
+}
+
+#[kani::proof]
+#[kani::unwind(7)]
+fn k_avec_array_step() {
+    step::<[u32; CAP]>(false);
+}
+
+#[kani::proof]
+#[kani::unwind(7)]
+fn k_avec_box_step() {
+    step::<Box<[u32; CAP]>>(false);
+}
+
+#[kani::proof]
+#[kani::unwind(7)]
+fn k_avec_vec_step() {
+    step::<Vec<u32>>(true);
+}
